@@ -455,6 +455,34 @@ PROPS['C06'] = {
 }
 
 
+PROPS['C01'] = {
+    'theorems': ['RQ.C01_lines_roundtrip', 'RQ.C01_lines_shape', 'RQ.C01_forward', 'RQ.C01_reverse', 'RQ.Write.C01_parse_plain'],
+    'extra_modules': ['RQ.Props.C01Text'],
+    'verdict': 'C01',
+    'jobs': [{'quick': ['diff', 'seed={seed}', 'n=40000', 'cli=4'], 'thorough': ['diff', 'seed={seed}', 'n=1000000', 'cli=4']}],
+    'nontrivial': lambda l: l.split('|')[6].count('4040202d') >= 1,
+    'histogram': lambda c, d: ['dir=' + c.split('|')[4], 'strip=' + c.split('|')[5], 'hunks=%d' % min(6, c.split('|')[6].count('4040202d')),
+                               'A=' + ('absent' if c.split('|')[2] == '~' else 'empty' if c.split('|')[2] == '-' else 'file'),
+                               'B=' + ('absent' if c.split('|')[3] == '~' else 'empty' if c.split('|')[3] == '-' else 'file'),
+                               'cli=' + ('no' if c.endswith('|-') else 'yes'), 'C01=' + (field(d, 'C01') or '?').split(':')[0]],
+    'rule': "generated pair (A, B): A of 0-14 lines (small alphabet; 50% 'rich' lines: leading -, +, @@, \\, tabs, CR, 0xff, "
+            "empty lines; last line with or without newline), or absent, or empty; B from a random edit script (keep / delete / "
+            "insert, any density), or absent (deletion), or all of A deleted; the diff is rendered GNU-style with context width "
+            "0, 1, 2, 3 or 5 in the dialects plain, timestamps, git (index line), quoted names, .orig old name, with /dev/null "
+            "or both names for creations/deletions, strip -p0/-p1/-p2, optional mail-style preamble; 35% are applied reversed "
+            "(-R) to B. Parsed by the real parse_patch and applied by the real TextFilePatch::apply; 4% additionally pushed "
+            "through the real command line driver in a temp dir. non-trivial = the patch has at least one hunk",
+    'explanation': "Theorems: bytes <-> lines are inverse (C01_lines_roundtrip/_shape); for EVERY valid unified diff from A to B "
+                   "(ValidDiff: any context width incl. 0, any grouping) apply_modify yields exactly B with every hunk at its "
+                   "stated line, offset 0, fuzz 0, for every fuzz limit (C01_forward), and in the reverse direction from B "
+                   "yields A (C01_reverse); the plain ---/+++ dialect with or without timestamps parses back to the same names "
+                   "and hunks (C01_parse_plain; the git dialect is C12). On the implementation: result must be exactly B "
+                   "(resp. A), all reports offset 0 fuzz 0, exit 0 for the CLI sample; model output equal.",
+    'assumptions': ["known finding c0-top-of-file (single zero-context hunk with its empty side at line 0 on a non-empty file) is excluded from the end-to-end claim; the hunk-level theorems do cover it",
+                    "the renderer of the harness is GNU-diff style; ValidDiff is the declarative notion the theorem quantifies over (non-vacuity example in C01.lean)"],
+}
+
+
 def field(line, name):
     m = re.search(r'(?:^| )' + re.escape(name) + r'=(\S*)', line)
     return m.group(1) if m else None
@@ -466,4 +494,4 @@ def replay_engine(path):
         if l and not l.startswith('#'):
             first = l
             break
-    return {'A': 'apply-replay', 'T': 'fuzzpair-replay', 'D': 'dist-replay', 'U': 'parse-replay', 'S': 'series-replay', 'P': 'path-replay', 'W': 'push-replay', 'F': 'pushfault-replay'}.get(first.split('|')[0], 'apply-replay')
+    return {'A': 'apply-replay', 'T': 'fuzzpair-replay', 'D': 'dist-replay', 'U': 'parse-replay', 'S': 'series-replay', 'P': 'path-replay', 'W': 'push-replay', 'F': 'pushfault-replay', 'C': 'diff-replay'}.get(first.split('|')[0], 'apply-replay')
